@@ -383,6 +383,7 @@ type d18Env struct {
 	nextPort int
 	viol     *d18Violation
 	inClose  bool
+	textHook func(p *d18Peer, cmd *d18Cmd, el []string) // nil in engine D
 }
 
 const d18WatcherIdx = 99
@@ -635,8 +636,8 @@ func d18ParseResp(b []byte) (int, []string) {
 // the proxy it was created with); stream.protocol itself is written by the handler without
 // synchronisation while the connection starts up.
 func (e *d18Env) textQueued(p *d18Peer) bool {
-	if p.pending == nil {
-		return false
+	if p.pending == nil || p.pending.Op != "lock" || p.pending.T == 0 {
+		return false // only a LOCK with a timeout can wait in a queue
 	}
 	probe := &protocol.LockCommand{LockKey: d18Key(p.pending.Key)}
 	m := e.db.GetLockManager(probe)
@@ -652,6 +653,9 @@ func (e *d18Env) textQueued(p *d18Peer) bool {
 		for _, l := range n {
 			if l == nil || l.timeouted || l.command == nil || l.locked > 0 || l.protocol == nil {
 				continue
+			}
+			if l.command.LockId != d18LockId(p.pending.Id) {
+				continue // e.g. the queued request of an earlier PUSH of the same connection
 			}
 			if tp, ok := l.protocol.serverProtocol.(*TextServerProtocol); ok && tp != nil && tp.stream == p.stream {
 				return true
@@ -784,6 +788,13 @@ func (e *d18Env) intake(p *d18Peer) {
 			}
 			p.inbuf = p.inbuf[n:]
 			p.textRep++
+			if e.textHook != nil {
+				// another engine (C03 text replies) judges text replies itself
+				cmd := p.pending
+				p.pending = nil
+				e.textHook(p, cmd, el)
+				continue
+			}
 			if p.pending == nil {
 				e.logf("  <- c%d UNSOLICITED text reply %q", p.idx, el)
 				e.fail("C18:misrouted:unsolicited-text-reply", "connection c%d (text) received a reply although it has no command outstanding: %q", p.idx, el)
